@@ -300,6 +300,39 @@ def special_vectors_worker(part, _):
         part.state(("specialvec", nm))
 
 
+def point_count_worker(part, base):
+    """
+    coordinate conversion of EVERY number of positions 1..N (a blocked or vectorised conversion that mishandles some remainder has
+    nowhere to hide below the bound): to_cartesian of the first n rows is those rows times the direct matrix, and to_fractional
+    brings them back - for generic points, and for the rows given as a Fortran-ordered array
+    """
+    from chmpy.crystal.unit_cell import UnitCell
+
+    uc = UnitCell.from_lengths_and_angles(list(base[:3]), list(base[3:]), unit="degrees")
+    D = np.asarray(uc.direct, dtype=float)
+    scale = max(base[:3])
+    k = np.arange(1, 601, dtype=float)[:, None]
+    P = np.mod(k * np.array([0.6180339887, 0.7548776662, 0.5698402910]), 1.0) * 3.0 - 1.0
+    case = {"kind": "pointcount", "base": list(base)}
+    for n in range(1, 601):
+        part.ev()
+        part.tr(3)
+        try:
+            c1 = np.asarray(uc.to_cartesian(P[:n]), dtype=float)
+            c2 = np.asarray(uc.to_cartesian(np.asfortranarray(P[:n])), dtype=float)
+            f1 = np.asarray(uc.to_fractional(c1), dtype=float)
+        except Exception as e:
+            part.fail("pointcount-raise", "conversion of %d positions raised %r" % (n, e), case)
+            break
+        dev = np.inf if c1.shape != (n, 3) or c2.shape != (n, 3) or f1.shape != (n, 3) else max(np.abs(c1 - P[:n] @ D).max() / (10 * scale), np.abs(c2 - P[:n] @ D).max() / (10 * scale), np.abs(f1 - P[:n]).max() / 10.0)
+        part.dev("pointcount", dev if np.isfinite(dev) else 1.0)
+        if not dev <= TOL:
+            part.fail("pointcount:%s" % ("n>=32" if n >= 32 else "n<32"), "to_cartesian / to_fractional of %d positions differ from the rows times the direct matrix (rel. dev %.3g) in cell %s" % (n, dev, tuple(base)), case)
+            break
+    part.state(("pointcount", tuple(base)))
+    part.outcome(("pointcount", base[3:]))
+
+
 def _readonly(a):
     a.setflags(write=False)
     return a
@@ -476,13 +509,17 @@ def run(ctx):
     bases = [(7.0, 8.0, 9.0, 81.0, 97.0, 104.0), (5.1, 11.3, 13.7, 60.0, 65.0, 115.0), (7.0, 7.0, 7.0, 90.0, 90.0, 90.0), (6.0, 6.0, 11.0, 90.0, 90.0, 120.0),
              (9.5, 9.5, 9.5, 98.432, 98.432, 98.432), (3.0, 40.0, 7.5, 90.0, 131.25, 90.0)]
     ctx.pmap(near_duplicate_worker, bases)
+    ctx.pmap(point_count_worker, bases[:4])
+    ctx.bounds["point_counts"] = "every number of positions 1..600 in 4 cells (to_cartesian, Fortran-ordered input, to_fractional)"
     ctx.bounds["near_duplicate_pairs"] = "%d base cells x 11 nearly equal partners (angles +-1e-7..5e-3 deg, lengths 1e-6) x both orders x 3 routes, module state reset per pair" % len(bases)
     ctx.bounds["respecification_histories"] = "all sequences of <= %d set_lengths_and_angles / set_vectors calls over 8 letters on one object" % (3 if ctx.thorough else 2)
     ctx.sample({"first_cells": [c[1] for c in cells[:3]], "n_cells": len(cells)})
 
 
 def replay(ctx, case):
-    if case.get("kind") == "neardup":
+    if case.get("kind") == "pointcount":
+        point_count_worker(ctx, tuple(case["base"]))
+    elif case.get("kind") == "neardup":
         near_duplicate_worker(ctx, tuple(case["base"]))
     elif case.get("kind") == "history":
         history_worker(ctx, 3)
